@@ -1,5 +1,6 @@
 #!/usr/bin/env python3
 
+import copy
 import warnings
 from typing import Optional
 
@@ -70,6 +71,16 @@ class GridKernel(Kernel):
     def _clear_cache(self):
         if hasattr(self, "_cached_kernel_mat"):
             del self._cached_kernel_mat
+
+    def __deepcopy__(self, memo):
+        # The cached kernel matrix may hang on an autograd graph (torch cannot deep-copy non-leaf tensors).
+        # It is recomputed on demand, so a copy starts without it.
+        result = self.__class__.__new__(self.__class__)
+        memo[id(self)] = result
+        for name, value in self.__dict__.items():
+            if name != "_cached_kernel_mat":
+                result.__dict__[name] = copy.deepcopy(value, memo)
+        return result
 
     def register_buffer_list(self, base_name, tensors):
         """Helper to register several buffers at once under a single base name"""
